@@ -978,6 +978,9 @@ class ProgramDB:
             for sub in ci.all_subclasses():
                 if name in sub.methods and sub.methods[name] not in out:
                     out.append(sub.methods[name])
+            concrete = [m for m in out if not m.is_abstract]
+            if concrete:
+                out = concrete
         return out
 
     def _resolve_callable(self, fexpr: ast.AST, func: FuncInfo | None, module: ModuleInfo, call: ast.Call | None) -> list["Callee"]:
